@@ -3,13 +3,13 @@
    the .ml lands there. *)
 From Coq Require Import Extraction ExtrOcamlBasic.
 From Coq Require Import List NArith.
-From FsDb Require Import VList VListRun Codec Core Spec ErrMap ErrMapInst Config Dirs Faults RW Pool CodecRepo.
+From FsDb Require Import VList VListRun Codec Core Spec ErrMap ErrMapInst Config Dirs Faults RW Pool CodecRepo Client.
 
 Extraction Language OCaml.
 
 Extraction "fsdb_model.ml"
   VListRun.vrun VListRun.vrun_spec
-  Core.m_init Core.mstep Core.sort_keys
+  Core.m_init Core.mstep Core.sort_keys Client.cstep
   Spec.a_init Spec.astep Spec.kvstep Spec.no_late_writes Spec.autocommit_only
   ErrMapInst.errmap_run_err ErrMapInst.errmap_run_wire ErrMapInst.errmap_run_level ErrMapInst.errmap_run_plevel
   Config.run_parse Config.run_valid
